@@ -281,6 +281,8 @@ def truth(ip, v):
         x = z3.Const(ip.fresh_name('w'), v.ek.sort())
         return z3.Exists([x], z3.Select(v.dom, x))
     if isinstance(v, VDict):
+        if v.rec is not None:
+            return len(v.rec) > 0        # a record dictionary (JSON object with known keys) is truthy iff it has keys
         if v.kk is None:
             return False
         x = z3.Const(ip.fresh_name('w'), v.kk.sort())
